@@ -161,6 +161,8 @@ def run_case(c):
     if kind == 'add_mps':
         q0, q1 = k.sector()
         a, b = k.mps(q0, q1), k.mps(q0, q1)
+        if c['seed'] % 6 == 0:
+            b = a                      # the same object as both operands
         objs = [a, b]
         da, db = oracle.mps_dense(a.A), oracle.mps_dense(b.A)
         al = _alpha(rng, var)
@@ -180,6 +182,8 @@ def run_case(c):
     elif kind == 'add_mpo':
         q0, q1 = k.sector(True)
         a, b = k.mpo(q0, q1), k.mpo(q0, q1)
+        if c['seed'] % 6 == 0:
+            b = a                      # the same object as both operands
         objs = [a, b]
         da, db = oracle.mpo_dense(a.A), oracle.mpo_dense(b.A)
         al = _alpha(rng, var)
@@ -197,6 +201,10 @@ def run_case(c):
                 k.mat_of('add_mpo', r, db + al * da, _nrm(db) + abs(al) * _nrm(da), f'B + ({al})*A after the first sum was overwritten in place')
     elif kind == 'mul_mpo':
         a, b = k.mpo(*k.sector(True)), k.mpo(*k.sector(True))
+        if c['seed'] % 6 == 0:
+            q = k.sector(True)
+            if q[0] == q[1]:
+                a = k.mpo(*q); b = a   # A @ A with the same object (boundary charges must agree)
         objs = [a, b]
         da, db = oracle.mpo_dense(a.A), oracle.mpo_dense(b.A)
         good, r = k.call('multiply_mpo', lambda: a @ b)
